@@ -1268,7 +1268,7 @@ func (w *World) registryWidthFor(fi *FuncInfo) (int64, bool) {
 				res, found = v, true
 			}
 			switch {
-			case fn.Name() == "FindFieldHeaderByName" && len(c.Args) >= 1:
+			case w.isRegistryLookup(fn) && len(c.Args) >= 1:
 				if tv, ok := info.Types[c.Args[0]]; ok && tv.Value != nil && tv.Value.Kind() == constant.String {
 					if wd, ok := byName[constant.StringVal(tv.Value)]; ok {
 						set(wd)
